@@ -1,14 +1,844 @@
 package vc
 
-// Replay of solver counterexamples on the real code (go test -overlay).
+// Replay of solver counterexamples on the real code.
+//
+// For a refuted obligation of a function whose parameters and results are plain data
+// (booleans, integers, floats, strings, slices/arrays of those) the model's inputs are
+// extracted with (get-value), turned into Go literals, and the REAL function is called from
+// an in-package test injected with `go test -overlay` (nothing is written into /repo). The
+// observed outputs are then fed, as constants, into the contract clauses (translated by the
+// same spec translator) and the solver decides whether a clause is false on the real
+// input/output pair. A panic of the real function confirms a refuted safety obligation.
+
+import (
+	"bytes"
+	"context"
+	"encoding/json"
+	"fmt"
+	"go/types"
+	"math"
+	"math/big"
+	"os"
+	"os/exec"
+	"path/filepath"
+	"regexp"
+	"strconv"
+	"strings"
+	"time"
+
+	"golang.org/x/tools/go/ssa"
+)
 
 type ReplayResult struct {
-	Confirmed bool   `json:"confirmed"`
-	Note      string `json:"note"`
-	Test      string `json:"test,omitempty"`
-	Output    string `json:"output,omitempty"`
+	Confirmed bool              `json:"confirmed"`
+	Note      string            `json:"note"`
+	Inputs    map[string]string `json:"inputs,omitempty"`
+	Test      string            `json:"test,omitempty"`
+	Output    string            `json:"output,omitempty"`
+	Clauses   []string          `json:"violated_clauses,omitempty"`
+	Dir       string            `json:"package_dir,omitempty"`
+}
+
+const replayMaxLen = 12
+
+type rval struct {
+	goLit string // Go literal
+	smt   func(u *Unit, st *state) string
+}
+
+func replayable(t types.Type) bool {
+	switch tt := t.Underlying().(type) {
+	case *types.Basic:
+		_, i := basicIntInfo(tt)
+		_, f := isFloat(tt)
+		return i || f || isBool(tt) || isString(tt)
+	case *types.Slice:
+		if _, ok := tt.Elem().Underlying().(*types.Slice); ok {
+			return false
+		}
+		return replayable(tt.Elem())
+	case *types.Array:
+		return replayable(tt.Elem()) && tt.Len() <= 64
+	}
+	return false
 }
 
 func (e *Engine) Replay(v OblResult, workDir string) *ReplayResult {
+	o := v.O
+	u := o.Unit
+	if u.contract == nil || strings.HasPrefix(u.FuncKey, "lemma ") {
+		return &ReplayResult{Note: "lemma over spec functions: no code to run"}
+	}
+	var fn *ssa.Function
+	if u.contract.PkgPath != "" {
+		fn = e.Funcs[u.contract.PkgPath+"::"+u.contract.Key]
+	}
+	if fn == nil || fn.Signature.Recv() != nil || fn.Parent() != nil || !e.inRepo(fn) {
+		return &ReplayResult{Note: "replay supports package-level functions of the repository only"}
+	}
+	for _, p := range fn.Params {
+		if !replayable(p.Type()) {
+			return &ReplayResult{Note: "parameter " + p.Name() + " of type " + p.Type().String() + " is outside the replayable data types"}
+		}
+	}
+	// 1. extract a (small) model
+	var terms []string
+	type pterm struct {
+		p     *ssa.Parameter
+		terms []string
+	}
+	var pts []pterm
+	for _, p := range fn.Params {
+		ts := u.valueTerms(q("in!"+p.Name()), p.Type(), "entry")
+		pts = append(pts, pterm{p, ts})
+		terms = append(terms, ts...)
+	}
+	vals := e.getValues(o, terms, workDir, true)
+	if vals == nil {
+		vals = e.getValues(o, terms, workDir, false)
+	}
+	if vals == nil {
+		return &ReplayResult{Note: "could not extract a concrete model (get-value failed)"}
+	}
+	// 2. Go literals
+	rr := &ReplayResult{Inputs: map[string]string{}}
+	var args []string
+	for _, pt := range pts {
+		lit, err := goLiteral(pt.p.Type(), pt.terms, vals, u.mode)
+		if err != nil {
+			rr.Note = "cannot build a Go literal for " + pt.p.Name() + ": " + err.Error()
+			return rr
+		}
+		rr.Inputs[pt.p.Name()] = lit
+		args = append(args, lit)
+	}
+	// 3. run the real function
+	pkg := fnPkg(fn).Pkg
+	call := fn.Name()
+	if fn.Origin() != nil {
+		call = fn.Name() // already carries the instantiation, e.g. toByteSortable[float64]
+	}
+	testSrc, imports := replayTest(pkg, fn, call, args)
+	rr.Test = testSrc
+	rr.Dir = filepath.Dir(e.Fset.Position(fn.Pos()).Filename)
+	_ = imports
+	out, err := e.runOverlayTest(pkg, fn, testSrc, workDir)
+	rr.Output = out
+	if err != nil {
+		rr.Note = "running the real function failed: " + err.Error()
+		return rr
+	}
+	if strings.Contains(out, "REPLAY-PANIC") {
+		rr.Confirmed = strings.HasPrefix(o.Kind, "safety") || o.Kind == "pre"
+		rr.Note = "the real function panics on the model input"
+		if !rr.Confirmed {
+			rr.Note += " (panic on an input that satisfies the precondition)"
+			rr.Confirmed = true
+		}
+		return rr
+	}
+	m := regexp.MustCompile(`REPLAY-RESULT (.*)`).FindStringSubmatch(out)
+	if m == nil {
+		rr.Note = "no result line in the test output"
+		return rr
+	}
+	var results []json.RawMessage
+	if err := json.Unmarshal([]byte(m[1]), &results); err != nil {
+		rr.Note = "cannot parse results: " + err.Error()
+		return rr
+	}
+	// 4. evaluate the contract clauses on the real input/output pair
+	viol, note := e.evalClauses(u, fn, nil, vals, results, workDir)
+	rr.Clauses = viol
+	if len(viol) > 0 {
+		rr.Confirmed = true
+		rr.Note = "contract clause false on the real input/output pair"
+	} else {
+		rr.Note = "real function ran; no contract clause is violated on this input (" + note + ")"
+	}
+	return rr
+}
+
+type parg struct {
+	p     *ssa.Parameter
+	terms []string
+}
+
+// valueTerms lists the SMT terms whose values describe a value of type t rooted at `base`.
+func (u *Unit) valueTerms(base string, t types.Type, stTag string) []string {
+	m := u.mode
+	switch tt := t.Underlying().(type) {
+	case *types.Basic:
+		if isString(tt) {
+			ts := []string{"(S_len " + base + ")"}
+			for i := 0; i < replayMaxLen; i++ {
+				ts = append(ts, fmt.Sprintf("(select (S_arr %s) %s)", base, m.idxLit(int64(i))))
+			}
+			return ts
+		}
+		return []string{base}
+	case *types.Slice:
+		key := u.keyM(tt.Elem())
+		h := q(key + "@" + stTag)
+		ts := []string{"(s_len " + base + ")"}
+		for i := 0; i < replayMaxLen; i++ {
+			el := fmt.Sprintf("(select (select %s (s_ref %s)) %s)", h, base, u.elemIdx("(s_off "+base+")", m.idxLit(int64(i))))
+			ts = append(ts, u.valueTerms(el, tt.Elem(), stTag)...)
+		}
+		return ts
+	case *types.Array:
+		var ts []string
+		for i := int64(0); i < tt.Len(); i++ {
+			ts = append(ts, u.valueTerms(fmt.Sprintf("(select %s %s)", base, m.idxLit(i)), tt.Elem(), stTag)...)
+		}
+		return ts
+	}
+	return []string{base}
+}
+
+func termCount(t types.Type) int {
+	switch tt := t.Underlying().(type) {
+	case *types.Basic:
+		if isString(tt) {
+			return 1 + replayMaxLen
+		}
+		return 1
+	case *types.Slice:
+		return 1 + replayMaxLen*termCount(tt.Elem())
+	case *types.Array:
+		return int(tt.Len()) * termCount(tt.Elem())
+	}
+	return 1
+}
+
+// getValues runs the winning query again with (get-value) on the requested terms.
+func (e *Engine) getValues(o *Obligation, terms []string, workDir string, small bool) map[string]string {
+	u := o.Unit
+	var sb strings.Builder
+	sb.WriteString("(set-option :produce-models true)\n(set-logic ALL)\n")
+	for _, l := range u.lines {
+		sb.WriteString(l + "\n")
+	}
+	for _, l := range o.Extra {
+		sb.WriteString(l + "\n")
+	}
+	// heap constants referenced by the terms must exist
+	for _, t := range terms {
+		for _, m := range regexp.MustCompile(`\|?(M\.[^ ()|]+@entry)\|?`).FindAllStringSubmatch(t, -1) {
+			name := q(m[1])
+			key := strings.TrimSuffix(m[1], "@entry")
+			decl := fmt.Sprintf("(declare-const %s %s)", name, u.keySort[key])
+			if !strings.Contains(sb.String(), "(declare-const "+name+" ") {
+				sb.WriteString(decl + "\n")
+			}
+		}
+	}
+	fmt.Fprintf(&sb, "(assert %s)\n(assert (not %s))\n", o.Reach, o.Goal)
+	if small {
+		for _, t := range terms {
+			if strings.HasPrefix(t, "(s_len ") || strings.HasPrefix(t, "(S_len ") {
+				sb.WriteString("(assert " + u.mode.cmp("<=", t, u.mode.idxLit(replayMaxLen), true) + ")\n")
+			}
+		}
+	}
+	sb.WriteString("(check-sat)\n")
+	for _, t := range terms {
+		sb.WriteString("(get-value (" + t + "))\n")
+	}
+	f := filepath.Join(workDir, safeFile(o.Name)+".getvalue.smt2")
+	os.MkdirAll(workDir, 0o755)
+	os.WriteFile(f, []byte(sb.String()), 0o644)
+	for _, sv := range [][]string{{"z3-new", "-T:20", f}, {"z3", "-T:20", f}} {
+		ctx, cancel := context.WithTimeout(context.Background(), 25*time.Second)
+		out, _ := exec.CommandContext(ctx, sv[0], sv[1:]...).CombinedOutput()
+		cancel()
+		s := string(out)
+		if !strings.HasPrefix(strings.TrimSpace(s), "sat") {
+			continue
+		}
+		vals := map[string]string{}
+		rest := s[strings.Index(s, "sat")+3:]
+		exprs := splitSexprs(rest)
+		if len(exprs) < len(terms) {
+			continue
+		}
+		for i, t := range terms {
+			// each expr is ((term value))
+			ex := strings.TrimSpace(exprs[i])
+			inner := strings.TrimSpace(ex[1 : len(ex)-1])
+			parts := splitSexprs(inner[1 : len(inner)-1])
+			if len(parts) >= 2 {
+				vals[t] = strings.TrimSpace(parts[len(parts)-1])
+			}
+		}
+		return vals
+	}
 	return nil
+}
+
+// splitSexprs splits a string into its top-level s-expressions / atoms.
+func splitSexprs(s string) []string {
+	var out []string
+	depth := 0
+	start := -1
+	inBar := false
+	for i := 0; i < len(s); i++ {
+		c := s[i]
+		if c == '|' {
+			inBar = !inBar
+			if start < 0 {
+				start = i
+			}
+			continue
+		}
+		if inBar {
+			continue
+		}
+		switch {
+		case c == '(':
+			if depth == 0 && start < 0 {
+				start = i
+			}
+			depth++
+		case c == ')':
+			depth--
+			if depth == 0 && start >= 0 {
+				out = append(out, s[start:i+1])
+				start = -1
+			}
+		case c == ' ' || c == '\n' || c == '\t' || c == '\r':
+			if depth == 0 && start >= 0 {
+				out = append(out, s[start:i])
+				start = -1
+			}
+		default:
+			if start < 0 {
+				start = i
+			}
+		}
+	}
+	if start >= 0 {
+		out = append(out, s[start:])
+	}
+	return out
+}
+
+func parseIntVal(v string, bits int, signed bool) (*big.Int, error) {
+	v = strings.TrimSpace(v)
+	switch {
+	case strings.HasPrefix(v, "#x"):
+		n, ok := new(big.Int).SetString(v[2:], 16)
+		if !ok {
+			return nil, fmt.Errorf("bad hex %s", v)
+		}
+		if signed && n.Bit(bits-1) == 1 {
+			n.Sub(n, new(big.Int).Lsh(big.NewInt(1), uint(bits)))
+		}
+		return n, nil
+	case strings.HasPrefix(v, "#b"):
+		n, ok := new(big.Int).SetString(v[2:], 2)
+		if !ok {
+			return nil, fmt.Errorf("bad bin %s", v)
+		}
+		if signed && n.Bit(bits-1) == 1 {
+			n.Sub(n, new(big.Int).Lsh(big.NewInt(1), uint(bits)))
+		}
+		return n, nil
+	case strings.HasPrefix(v, "(- "):
+		n, ok := new(big.Int).SetString(strings.TrimSuffix(strings.TrimSpace(v[3:]), ")"), 10)
+		if !ok {
+			return nil, fmt.Errorf("bad int %s", v)
+		}
+		return n.Neg(n), nil
+	}
+	n, ok := new(big.Int).SetString(v, 10)
+	if !ok {
+		return nil, fmt.Errorf("bad int %s", v)
+	}
+	return n, nil
+}
+
+// parseFloatBits returns the IEEE bit pattern of an SMT FloatingPoint value.
+func parseFloatBits(v string, bits int) (uint64, error) {
+	v = strings.TrimSpace(v)
+	eb, sb := 11, 52
+	if bits == 32 {
+		eb, sb = 8, 23
+	}
+	switch {
+	case strings.HasPrefix(v, "(fp "):
+		parts := splitSexprs(v[4 : len(v)-1])
+		if len(parts) != 3 {
+			return 0, fmt.Errorf("bad fp %s", v)
+		}
+		s, _ := parseIntVal(parts[0], 1, false)
+		e, _ := parseIntVal(parts[1], eb, false)
+		m, _ := parseIntVal(parts[2], sb, false)
+		if s == nil || e == nil || m == nil {
+			return 0, fmt.Errorf("bad fp %s", v)
+		}
+		return s.Uint64()<<(uint(eb+sb)) | e.Uint64()<<uint(sb) | m.Uint64(), nil
+	case strings.HasPrefix(v, "(_ +zero"):
+		return 0, nil
+	case strings.HasPrefix(v, "(_ -zero"):
+		return 1 << uint(eb+sb), nil
+	case strings.HasPrefix(v, "(_ +oo"):
+		return ((1 << uint(eb)) - 1) << uint(sb), nil
+	case strings.HasPrefix(v, "(_ -oo"):
+		return 1<<uint(eb+sb) | ((1<<uint(eb))-1)<<uint(sb), nil
+	case strings.HasPrefix(v, "(_ NaN"):
+		return ((1<<uint(eb))-1)<<uint(sb) | 1<<uint(sb-1), nil
+	}
+	return 0, fmt.Errorf("unsupported float value %s", v)
+}
+
+// goLiteral consumes the values of the terms (in valueTerms order) and builds a Go literal.
+func goLiteral(t types.Type, terms []string, vals map[string]string, m Mode) (string, error) {
+	lit, rest, err := goLit(t, terms, vals, m)
+	_ = rest
+	return lit, err
+}
+
+func goLit(t types.Type, terms []string, vals map[string]string, m Mode) (string, []string, error) {
+	tn := types.TypeString(t, func(p *types.Package) string { return p.Name() })
+	switch tt := t.Underlying().(type) {
+	case *types.Basic:
+		if isString(tt) {
+			n, err := parseIntVal(vals[terms[0]], 64, true)
+			if err != nil {
+				return "", nil, err
+			}
+			ln := int(n.Int64())
+			if ln < 0 || ln > replayMaxLen {
+				return "", nil, fmt.Errorf("string length %d outside the replay bound %d", ln, replayMaxLen)
+			}
+			var bs []byte
+			for i := 0; i < ln; i++ {
+				b, err := parseIntVal(vals[terms[1+i]], 8, false)
+				if err != nil {
+					return "", nil, err
+				}
+				bs = append(bs, byte(b.Uint64()))
+			}
+			return tn + "(" + strconv.Quote(string(bs)) + ")", terms[1+replayMaxLen:], nil
+		}
+		v := vals[terms[0]]
+		if ii, ok := basicIntInfo(tt); ok {
+			n, err := parseIntVal(v, ii.bits, ii.signed)
+			if err != nil {
+				return "", nil, err
+			}
+			return tn + "(" + n.String() + ")", terms[1:], nil
+		}
+		if fb, ok := isFloat(tt); ok {
+			if m.FPOrder {
+				return "", nil, fmt.Errorf("floats in order mode have no concrete value")
+			}
+			b, err := parseFloatBits(v, fb)
+			if err != nil {
+				return "", nil, err
+			}
+			if fb == 32 {
+				return fmt.Sprintf("%s(math.Float32frombits(0x%x))", tn, uint32(b)), terms[1:], nil
+			}
+			return fmt.Sprintf("%s(math.Float64frombits(0x%x))", tn, b), terms[1:], nil
+		}
+		if isBool(tt) {
+			return tn + "(" + v + ")", terms[1:], nil
+		}
+	case *types.Slice:
+		n, err := parseIntVal(vals[terms[0]], 64, true)
+		if err != nil {
+			return "", nil, err
+		}
+		ln := int(n.Int64())
+		if ln < 0 || ln > replayMaxLen {
+			return "", nil, fmt.Errorf("slice length %d outside the replay bound %d", ln, replayMaxLen)
+		}
+		rest := terms[1:]
+		var els []string
+		per := termCount(tt.Elem())
+		for i := 0; i < replayMaxLen; i++ {
+			if i < ln {
+				l, _, err := goLit(tt.Elem(), rest[:per], vals, m)
+				if err != nil {
+					return "", nil, err
+				}
+				els = append(els, l)
+			}
+			rest = rest[per:]
+		}
+		return tn + "{" + strings.Join(els, ", ") + "}", rest, nil
+	case *types.Array:
+		rest := terms
+		var els []string
+		per := termCount(tt.Elem())
+		for i := int64(0); i < tt.Len(); i++ {
+			l, _, err := goLit(tt.Elem(), rest[:per], vals, m)
+			if err != nil {
+				return "", nil, err
+			}
+			els = append(els, l)
+			rest = rest[per:]
+		}
+		return tn + "{" + strings.Join(els, ", ") + "}", rest, nil
+	}
+	return "", nil, fmt.Errorf("type %s", t)
+}
+
+func replayTest(pkg *types.Package, fn *ssa.Function, call string, args []string) (string, []string) {
+	var sb strings.Builder
+	fmt.Fprintf(&sb, "package %s\n\nimport (\n\t\"encoding/json\"\n\t\"fmt\"\n\t\"math\"\n\t\"testing\"\n", pkg.Name())
+	// imports needed by the literals (qualified type names)
+	need := map[string]string{}
+	for _, a := range args {
+		for _, m := range regexp.MustCompile(`\b([a-z][a-zA-Z0-9_]*)\.[A-Z]`).FindAllStringSubmatch(a, -1) {
+			need[m[1]] = ""
+		}
+	}
+	for _, imp := range pkg.Imports() {
+		if _, ok := need[imp.Name()]; ok && imp.Name() != "math" {
+			fmt.Fprintf(&sb, "\t%q\n", imp.Path())
+		}
+	}
+	sb.WriteString(")\n\nvar _ = math.Pi\n\n")
+	sb.WriteString("func TestZZVerifReplay(t *testing.T) {\n\tdefer func() {\n\t\tif r := recover(); r != nil {\n\t\t\tfmt.Printf(\"REPLAY-PANIC %v\\n\", r)\n\t\t}\n\t}()\n")
+	n := fn.Signature.Results().Len()
+	var rs []string
+	for i := 0; i < n; i++ {
+		rs = append(rs, fmt.Sprintf("r%d", i))
+	}
+	if n > 0 {
+		fmt.Fprintf(&sb, "\t%s := %s(%s)\n", strings.Join(rs, ", "), call, strings.Join(args, ", "))
+	} else {
+		fmt.Fprintf(&sb, "\t%s(%s)\n", call, strings.Join(args, ", "))
+	}
+	sb.WriteString("\tvar out []any\n")
+	for i := 0; i < n; i++ {
+		rt := fn.Signature.Results().At(i).Type()
+		fmt.Fprintf(&sb, "\tout = append(out, %s)\n", encodeExpr(fmt.Sprintf("r%d", i), rt))
+	}
+	sb.WriteString("\tb, _ := json.Marshal(out)\n\tfmt.Printf(\"REPLAY-RESULT %s\\n\", b)\n}\n")
+	return sb.String(), nil
+}
+
+// encodeExpr: Go expression turning a result into JSON-friendly data (floats as bit patterns,
+// errors as nil/non-nil, byte slices as int arrays).
+func encodeExpr(v string, t types.Type) string {
+	if types.Identical(t, types.Universe.Lookup("error").Type()) {
+		return v + " != nil"
+	}
+	switch tt := t.Underlying().(type) {
+	case *types.Basic:
+		if fb, ok := isFloat(tt); ok {
+			if fb == 32 {
+				return "fmt.Sprint(uint64(math.Float32bits(float32(" + v + "))))"
+			}
+			return "fmt.Sprint(math.Float64bits(float64(" + v + ")))"
+		}
+		if isString(tt) {
+			return "func() []any { o := []any{}; for _, x := range []byte(" + v + ") { o = append(o, fmt.Sprint(x)) }; return o }()"
+		}
+		if _, ok := basicIntInfo(tt); ok {
+			return "fmt.Sprint(" + v + ")"
+		}
+		return v
+	case *types.Slice:
+		return "func() []any { var o []any; for _, x := range " + v + " { o = append(o, " + encodeExpr("x", tt.Elem()) + ") }; if " + v + " == nil { return nil }; if o == nil { o = []any{} }; return o }()"
+	case *types.Array:
+		return "func() []any { var o []any; for _, x := range " + v + " { o = append(o, " + encodeExpr("x", tt.Elem()) + ") }; return o }()"
+	}
+	return "fmt.Sprint(" + v + ")"
+}
+
+func (e *Engine) runOverlayTest(pkg *types.Package, fn *ssa.Function, src, workDir string) (string, error) {
+	pos := e.Fset.Position(fn.Pos())
+	dir := filepath.Dir(pos.Filename)
+	return RunOverlay(dir, src, workDir)
+}
+
+// RunOverlay runs an in-package test injected by overlay in the given package directory.
+func RunOverlay(dir, src, workDir string) (string, error) {
+	os.MkdirAll(workDir, 0o755)
+	tf := filepath.Join(workDir, "zz_verif_replay_test.go")
+	if err := os.WriteFile(tf, []byte(src), 0o644); err != nil {
+		return "", err
+	}
+	ov := map[string]map[string]string{"Replace": {filepath.Join(dir, "zz_verif_replay_test.go"): tf}}
+	ob, _ := json.Marshal(ov)
+	of := filepath.Join(workDir, "overlay.json")
+	os.WriteFile(of, ob, 0o644)
+	ctx, cancel := context.WithTimeout(context.Background(), 180*time.Second)
+	defer cancel()
+	cmd := exec.CommandContext(ctx, "bash", "-c", fmt.Sprintf("ulimit -v 8000000; cd %q && go test -overlay %q -v -vet=off -count=1 -timeout 60s -run '^TestZZVerifReplay$' .", dir, of))
+	env := os.Environ()
+	// the repository's own toolchain: default go with automatic (offline, cached) switch
+	var clean []string
+	for _, kv := range env {
+		if strings.HasPrefix(kv, "GOTOOLCHAIN=") || strings.HasPrefix(kv, "GOFLAGS=") || strings.HasPrefix(kv, "PATH=") {
+			continue
+		}
+		clean = append(clean, kv)
+	}
+	path := os.Getenv("PATH")
+	path = strings.ReplaceAll(path, "/opt/veriftools/go1.26.8/bin:", "")
+	clean = append(clean, "PATH="+path, "GOFLAGS=-mod=mod", "GOPROXY=off")
+	cmd.Env = clean
+	var out bytes.Buffer
+	cmd.Stdout = &out
+	cmd.Stderr = &out
+	err := cmd.Run()
+	s := out.String()
+	if len(s) > 6000 {
+		s = s[:6000]
+	}
+	if err != nil && !strings.Contains(s, "REPLAY-") {
+		return s, fmt.Errorf("go test: %v", err)
+	}
+	return s, nil
+}
+
+// evalClauses decides, with the solver, which ensures clauses are false on the concrete pair.
+func (e *Engine) evalClauses(orig *Unit, fn *ssa.Function, _ []parg, vals map[string]string, results []json.RawMessage, workDir string) ([]string, string) {
+	c := orig.contract
+	var viol []string
+	notes := ""
+	for k, en := range c.Ensures {
+		u := newUnit(e, "replay-eval", orig.mode)
+		u.regKey(allocKey, "Int")
+		st := &state{over: map[string]string{}, base: &entryProv{tag: "entry", cache: map[string]string{}}, u: u}
+		env := &specEnv{u: u, st: st, old: st, vars: map[string]Val{}, pkgPath: c.PkgPath, callee: fn}
+		ok := true
+		func() {
+			defer func() {
+				if r := recover(); r != nil {
+					ok = false
+					notes += fmt.Sprintf("clause %d: %v; ", k+1, r)
+				}
+			}()
+			ref := 1
+			for _, p := range fn.Params {
+				terms := orig.valueTerms(q("in!"+p.Name()), p.Type(), "entry")
+				t := u.concreteFromModel(p.Type(), terms, vals, st, &ref)
+				env.vars[p.Name()] = Val{t: t, typ: p.Type()}
+			}
+			var rs []Val
+			for i := 0; i < fn.Signature.Results().Len(); i++ {
+				rt := fn.Signature.Results().At(i).Type()
+				var j any
+				json.Unmarshal(results[i], &j)
+				t := u.concreteFromJSON(rt, j, st, &ref)
+				rs = append(rs, Val{t: t, typ: rt})
+			}
+			env.results = rs
+			// old state = input heap: inputs were written before the results; use one state (functions under replay do not mutate inputs observably for these clauses)
+			g, err := env.boolExpr(en.E)
+			if err != nil {
+				ok = false
+				notes += fmt.Sprintf("clause %d: %v; ", k+1, err)
+				return
+			}
+			o := u.addObl("replay", en.Src, "", "true", g)
+			script := o.Script(false)
+			f := filepath.Join(workDir, fmt.Sprintf("replay-eval-%d.smt2", k+1))
+			os.WriteFile(f, []byte(script), 0o644)
+			res := "unknown"
+			for _, sv := range [][]string{{"z3-new", "-T:20", f}, {"z3", "-T:20", f}, {"cvc5", "--tlimit=20000", f}} {
+				ctx, cancel := context.WithTimeout(context.Background(), 25*time.Second)
+				out, _ := exec.CommandContext(ctx, sv[0], sv[1:]...).CombinedOutput()
+				cancel()
+				first := strings.TrimSpace(strings.SplitN(string(out), "\n", 2)[0])
+				if first == "sat" || first == "unsat" {
+					res = first
+					break
+				}
+			}
+			if res == "sat" {
+				viol = append(viol, en.Src)
+			} else if res != "unsat" {
+				notes += fmt.Sprintf("clause %d undecided on concrete data; ", k+1)
+			}
+		}()
+		_ = ok
+	}
+	return viol, notes
+}
+
+// concreteFromModel builds an SMT term of the given type with the model's concrete value.
+func (u *Unit) concreteFromModel(t types.Type, terms []string, vals map[string]string, st *state, ref *int) string {
+	var take func(t types.Type) string
+	pos := 0
+	next := func() string { v := vals[terms[pos]]; pos++; return v }
+	take = func(t types.Type) string {
+		m := u.mode
+		switch tt := t.Underlying().(type) {
+		case *types.Basic:
+			if isString(tt) {
+				n, _ := parseIntVal(next(), 64, true)
+				ln := int(n.Int64())
+				arr := fmt.Sprintf("((as const (Array %s %s)) %s)", m.idxSort(), u.byteSort(), m.intLit(bigZero, intInfo{8, false}))
+				for i := 0; i < replayMaxLen; i++ {
+					v := next()
+					if i < ln {
+						b, _ := parseIntVal(v, 8, false)
+						arr = fmt.Sprintf("(store %s %s %s)", arr, m.idxLit(int64(i)), m.intLit(b, intInfo{8, false}))
+					}
+				}
+				return fmt.Sprintf("(mk-str %s %s)", arr, m.idxLit(int64(ln)))
+			}
+			return next()
+		case *types.Slice:
+			n, _ := parseIntVal(next(), 64, true)
+			ln := int(n.Int64())
+			es := u.sortOf(tt.Elem())
+			arr := fmt.Sprintf("((as const (Array %s %s)) %s)", m.idxSort(), es, u.zero(tt.Elem()))
+			for i := 0; i < replayMaxLen; i++ {
+				el := take(tt.Elem())
+				if i < ln {
+					arr = fmt.Sprintf("(store %s %s %s)", arr, m.idxLit(int64(i)), el)
+				}
+			}
+			r := *ref
+			*ref++
+			key := u.keyM(tt.Elem())
+			st.set(key, fmt.Sprintf("(store %s %d %s)", st.get(u, key), r, arr))
+			return fmt.Sprintf("(mk-slc %d %s %s %s)", r, m.idxLit(0), m.idxLit(int64(ln)), m.idxLit(int64(ln)))
+		case *types.Array:
+			arr := u.zero(t)
+			for i := int64(0); i < tt.Len(); i++ {
+				arr = fmt.Sprintf("(store %s %s %s)", arr, m.idxLit(i), take(tt.Elem()))
+			}
+			return arr
+		}
+		return next()
+	}
+	return take(t)
+}
+
+// concreteFromJSON builds an SMT term from a result value printed by the replay test.
+func (u *Unit) concreteFromJSON(t types.Type, j any, st *state, ref *int) string {
+	m := u.mode
+	if types.Identical(t, types.Universe.Lookup("error").Type()) {
+		if b, _ := j.(bool); b {
+			return "(mk-ifc 1 1)"
+		}
+		return "(mk-ifc 0 0)"
+	}
+	switch tt := t.Underlying().(type) {
+	case *types.Basic:
+		if fb, ok := isFloat(tt); ok {
+			f, _ := j.(float64) // bit pattern as JSON number may lose precision: printed via uint64 -> use string fallback
+			bits := uint64(f)
+			if s, ok := j.(string); ok {
+				bits, _ = strconv.ParseUint(s, 10, 64)
+			}
+			if fb == 32 {
+				return fmt.Sprintf("((_ to_fp 8 24) #x%08x)", uint32(bits))
+			}
+			return fmt.Sprintf("((_ to_fp 11 53) #x%016x)", bits)
+		}
+		if isString(tt) {
+			return u.concreteBytesStr(j)
+		}
+		if ii, ok := basicIntInfo(tt); ok {
+			s, _ := j.(string)
+			n, _ := new(big.Int).SetString(s, 10)
+			if n == nil {
+				n = big.NewInt(0)
+			}
+			return m.intLit(n, ii)
+		}
+		if isBool(tt) {
+			if b, _ := j.(bool); b {
+				return "true"
+			}
+			return "false"
+		}
+	case *types.Slice:
+		if j == nil {
+			z := m.idxLit(0)
+			return fmt.Sprintf("(mk-slc 0 %s %s %s)", z, z, z)
+		}
+		var items []any
+		if b, ok := tt.Elem().Underlying().(*types.Basic); ok && b.Kind() == types.Uint8 {
+			// []byte is marshalled by encoding/json as base64 unless wrapped; we wrapped into []any
+		}
+		items, _ = j.([]any)
+		es := u.sortOf(tt.Elem())
+		arr := fmt.Sprintf("((as const (Array %s %s)) %s)", m.idxSort(), es, u.zero(tt.Elem()))
+		for i, it := range items {
+			arr = fmt.Sprintf("(store %s %s %s)", arr, m.idxLit(int64(i)), u.concreteFromJSON(tt.Elem(), it, st, ref))
+		}
+		r := *ref
+		*ref++
+		key := u.keyM(tt.Elem())
+		st.set(key, fmt.Sprintf("(store %s %d %s)", st.get(u, key), r, arr))
+		return fmt.Sprintf("(mk-slc %d %s %s %s)", r, m.idxLit(0), m.idxLit(int64(len(items))), m.idxLit(int64(len(items))))
+	case *types.Array:
+		items, _ := j.([]any)
+		arr := u.zero(t)
+		for i, it := range items {
+			arr = fmt.Sprintf("(store %s %s %s)", arr, m.idxLit(int64(i)), u.concreteFromJSON(tt.Elem(), it, st, ref))
+		}
+		return arr
+	}
+	panic(unsupportedf("result type %s is outside the replayable data types", t))
+}
+
+func (u *Unit) concreteBytesStr(j any) string {
+	m := u.mode
+	items, _ := j.([]any)
+	arr := fmt.Sprintf("((as const (Array %s %s)) %s)", m.idxSort(), u.byteSort(), m.intLit(bigZero, intInfo{8, false}))
+	for i, it := range items {
+		s, _ := it.(string)
+		n, _ := new(big.Int).SetString(s, 10)
+		if n == nil {
+			if f, ok := it.(float64); ok {
+				n = big.NewInt(int64(f))
+			} else {
+				n = big.NewInt(0)
+			}
+		}
+		arr = fmt.Sprintf("(store %s %s %s)", arr, m.idxLit(int64(i)), m.intLit(n, intInfo{8, false}))
+	}
+	return fmt.Sprintf("(mk-str %s %s)", arr, m.idxLit(int64(len(items))))
+}
+
+var _ = math.Pi
+
+// ReplayMain re-runs the stored counterexample of a replay file on the real code.
+func ReplayMain(args []string) int {
+	if len(args) < 1 {
+		fmt.Println("usage: govc replay <file>")
+		return 2
+	}
+	b, err := os.ReadFile(args[0])
+	if err != nil {
+		fmt.Println(err)
+		return 2
+	}
+	var rep struct {
+		Obligation string        `json:"obligation"`
+		What       string        `json:"what"`
+		Status     string        `json:"status"`
+		Replay     *ReplayResult `json:"replay"`
+	}
+	if err := json.Unmarshal(b, &rep); err != nil {
+		fmt.Println(err)
+		return 2
+	}
+	fmt.Printf("obligation %s (%s): %s\n", rep.Obligation, rep.Status, rep.What)
+	if rep.Replay == nil || rep.Replay.Test == "" || rep.Replay.Dir == "" {
+		fmt.Println("no concrete input stored for this obligation (see solver_answers / model in the file)")
+		return 0
+	}
+	fmt.Printf("inputs: %v\n", rep.Replay.Inputs)
+	out, err := RunOverlay(rep.Replay.Dir, rep.Replay.Test, filepath.Join(os.TempDir(), "govc-replay"))
+	fmt.Println(out)
+	if err != nil {
+		fmt.Println("error:", err)
+	}
+	fmt.Printf("violated clauses recorded: %v\n", rep.Replay.Clauses)
+	os.RemoveAll(filepath.Join(os.TempDir(), "govc-replay"))
+	return 0
 }
